@@ -168,26 +168,59 @@ def _sinks(fn: ast.AST, parser_names: T.Set[str]) -> T.List[Sink]:
     return out
 
 
+def _parser_class(ps: PathSym, mod: Module, cn: str) -> T.Optional[T.Tuple[bool, T.Optional[T.Tuple[Module, ast.ClassDef]]]]:
+    """(is a configparser class, the repository class if it is one) for a dotted class name."""
+    if cn.split('.')[-1].endswith('ConfigParser'):
+        return True, None
+    rc = ps.resolve_class(mod, cn)
+    if rc is not None:
+        for m2, c2 in ps.mro(rc[0], rc[1]):
+            if any((attr_chain(b) or '').split('.')[-1].endswith('ConfigParser') for b in c2.bases):
+                return True, rc
+    return None
+
+
+PARSER_CLASS: T.Dict[T.Tuple[int, str], T.Tuple[Module, ast.ClassDef]] = {}     # (id(fn), local) -> repository parser class
+PARSER_FILLED: T.Set[T.Tuple[int, str]] = set()                                  # locals a factory has already filled from a file
+
+
 def _parser_locals(ps: PathSym, mod: Module, fn: ast.AST) -> T.Set[str]:
-    """Locals bound to a configparser object: `x = C()` with C (a subclass of) configparser.*ConfigParser."""
+    """Locals bound to a configparser object: `x = C()` with C (a subclass of) configparser.*ConfigParser, or `x = C.make(...)`
+    with `make` a classmethod/staticmethod of such a repository class every return of which is a local bound to `cls()` / `C()`
+    (a factory; when it calls .read*/read_file on that local the parser comes back filled from a file)."""
     out: T.Set[str] = set()
     for n in walk_no_nested(fn):
         if isinstance(n, (ast.Assign, ast.AnnAssign)) and isinstance(n.value, ast.Call):
             cn = attr_chain(n.value.func)
             if not cn:
                 continue
-            is_parser = cn.split('.')[-1].endswith('ConfigParser')
-            if not is_parser:
-                rc = ps.resolve_class(mod, cn)
-                if rc is not None:
-                    for m2, c2 in ps.mro(rc[0], rc[1]):
-                        if any((attr_chain(b) or '').split('.')[-1].endswith('ConfigParser') for b in c2.bases):
-                            is_parser = True
-            if is_parser:
+            got = _parser_class(ps, mod, cn)
+            filled = False
+            if got is None and '.' in cn:
+                head, _, meth = cn.rpartition('.')
+                g2 = _parser_class(ps, mod, head)
+                if g2 is not None and g2[1] is not None:
+                    fac = ps._method(g2[1][0], g2[1][1], meth)
+                    if fac is not None and set(decorator_names_of(fac.node)) & {'classmethod', 'staticmethod'}:
+                        fd = ps.local_defs(fac.node)
+                        rets = [r.value for r in walk_no_nested(fac.node) if isinstance(r, ast.Return)]
+                        made = {r.id for r in rets if isinstance(r, ast.Name)}
+                        if rets and len(made) == 1 and all(isinstance(r, ast.Name) for r in rets):
+                            loc = next(iter(made))
+                            d = fd.get(loc, [])
+                            if len(d) == 1 and isinstance(d[0], ast.Call) and (attr_chain(d[0].func) in ('cls', head.split('.')[-1]) or _parser_class(ps, fac.mod, attr_chain(d[0].func) or '') is not None):
+                                got = g2
+                                filled = any(isinstance(c, ast.Call) and call_method(c) in ('read', 'read_file', 'read_string') and isinstance(c.func, ast.Attribute)
+                                             and norm(c.func.value) == loc for c in walk_no_nested(fac.node))
+            if got is not None:
                 tg = n.targets if isinstance(n, ast.Assign) else [n.target]
                 for t in tg:
                     if isinstance(t, ast.Name):
                         out.add(t.id)
+                        if got[1] is not None:
+                            PARSER_CLASS[(id(fn), t.id)] = got[1]
+                        if filled:
+                            PARSER_FILLED.add((id(fn), t.id))
     return out
 
 
@@ -1309,6 +1342,9 @@ def _unknown_parser_uses(mod: Module, fn: ast.AST, parser: str) -> T.List[ast.AS
         par = pm.get(n)
         if isinstance(par, ast.Attribute) and par.attr in KNOWN_PARSER_ATTRS:
             continue
+        if isinstance(par, ast.Attribute) and (id(fn), parser) in PARSER_CLASS and isinstance(pm.get(par), ast.Call) and pm.get(par).func is par \
+                and any(isinstance(st, (ast.FunctionDef, ast.AsyncFunctionDef)) and st.name == par.attr for st in PARSER_CLASS[(id(fn), parser)][1].body):   # type: ignore[union-attr]
+            continue        # a method the repository parser class defines: read by _accessor_accesses
         if isinstance(par, ast.Subscript) and par.value is n:
             continue
         if isinstance(par, ast.Compare) and any(c is n for c in par.comparators) and all(isinstance(o, (ast.In, ast.NotIn)) for o in par.ops):
@@ -1341,6 +1377,69 @@ def _expr_guarded(mod: Module, fn: ast.AST, node: ast.AST, parser: str, key: str
     return False
 
 
+def _accessor_accesses(ps: PathSym, cls: T.Tuple[Module, ast.ClassDef], call: ast.Call, qn: str) -> T.Optional[T.Tuple[int, T.Optional[T.Tuple[str, str]]]]:
+    """`parser.m('sec', ...)` with m defined by the repository parser class: (number of section accesses in m that a presence test
+    of the same expression guards, the (section, error) of an access that nothing in m guards - the caller must guard the call
+    then - or None).  None when m is not a method of that class (configparser API).  Undecided when m is not straight-line."""
+    import copy
+    meth = None
+    for st in cls[1].body:
+        if isinstance(st, (ast.FunctionDef, ast.AsyncFunctionDef)) and st.name == call.func.attr:      # type: ignore[attr-defined]
+            meth = st
+    if meth is None:
+        return None
+    params = [a.arg for a in meth.args.posonlyargs + meth.args.args][1:]
+    if call.keywords or len(call.args) > len(params) or meth.args.vararg or meth.args.kwarg:
+        bound: T.Dict[str, ast.AST] = {}
+    else:
+        bound = {p: a for p, a in zip(params, call.args) if isinstance(a, ast.Constant)}     # other arguments stay names: a key built from one ends Undecided below
+    selfname = (meth.args.posonlyargs + meth.args.args)[0].arg
+    body = [st for st in meth.body if not (isinstance(st, ast.Expr) and isinstance(st.value, ast.Constant))]
+    m2 = copy.deepcopy(ast.Module(body=body, type_ignores=[]))
+    m2 = _Rename({}, bound).visit(m2)
+    pm: T.Dict[int, ast.AST] = {}
+    for parent in ast.walk(m2):
+        for ch in ast.iter_child_nodes(parent):
+            pm[id(ch)] = parent
+    guarded = 0
+    raw: T.Optional[T.Tuple[str, str]] = None
+    for x in ast.walk(m2):
+        key = what = None
+        if isinstance(x, ast.Subscript) and isinstance(x.value, ast.Name) and x.value.id == selfname and isinstance(x.ctx, ast.Load):
+            if not (isinstance(x.slice, ast.Constant) and isinstance(x.slice.value, str)):
+                raise Undecided(f'{qn}: `{short(call)}`: {cls[1].name}.{meth.name} indexes the parser with a key that is not an argument constant')
+            key, what = x.slice.value, 'KeyError'
+        elif isinstance(x, ast.Call) and isinstance(x.func, ast.Attribute) and isinstance(x.func.value, ast.Name) and x.func.value.id == selfname \
+                and x.func.attr in SECTION_READERS and x.args and kwarg(x, 'fallback') is None:
+            if not (isinstance(x.args[0], ast.Constant) and isinstance(x.args[0].value, str)):
+                raise Undecided(f'{qn}: `{short(call)}`: {cls[1].name}.{meth.name} reads a section that is not an argument constant')
+            key, what = x.args[0].value, 'configparser.NoSectionError'
+        if key is None or what is None:
+            continue
+        # guard inside the same expression (conditional expression / and-or chain)?
+        ok = False
+        child: ast.AST = x
+        cur = pm.get(id(x))
+        while cur is not None and not isinstance(cur, ast.stmt):
+            if isinstance(cur, ast.IfExp):
+                ok = ok or (child is cur.body and _presence(cur.test, True, selfname, key)) or (child is cur.orelse and _presence(cur.test, False, selfname, key))
+            elif isinstance(cur, ast.BoolOp):
+                i = [k for k, v in enumerate(cur.values) if v is child]
+                if i and any(_presence(v, isinstance(cur.op, ast.And), selfname, key) for v in cur.values[:i[0]]):
+                    ok = True
+            child = cur
+            cur = pm.get(id(cur))
+        if ok:
+            guarded += 1
+        elif len(body) == 1 and isinstance(body[0], ast.Return) and raw is None:
+            raw = (key, what)
+        else:
+            raise Undecided(f'{qn}: `{short(call)}`: {cls[1].name}.{meth.name} reads section {key!r} behind statement-level logic the rule does not follow')
+    if not guarded and raw is None:
+        return None
+    return guarded, raw
+
+
 def r2_cmdline(ctx: RuleCtx) -> None:
     mod = ctx.repo.module(CMDLINE)
     ps = PathSym(ctx.repo)
@@ -1352,7 +1451,7 @@ def r2_cmdline(ctx: RuleCtx) -> None:
             continue
         reads = [c for c in walk_no_nested(fn) if isinstance(c, ast.Call) and call_method(c) in ('read', 'read_file', 'read_string')
                  and isinstance(c.func, ast.Attribute) and norm(c.func.value) in parsers]
-        if not reads:
+        if not reads and not any((id(fn), x) in PARSER_FILLED for x in parsers):
             continue   # a parser that is only filled by this function has every section it stores
         readers += 1
         cfg = CFG(fn)
@@ -1374,6 +1473,18 @@ def r2_cmdline(ctx: RuleCtx) -> None:
                 if not (isinstance(n.args[0], ast.Constant) and isinstance(n.args[0].value, str)):
                     raise Undecided(f'{qn}: section argument of `{short(n)}` is not a constant')
                 parser, key, what = n.func.value.id, n.args[0].value, 'configparser.NoSectionError'
+            elif isinstance(n, ast.Call) and isinstance(n.func, ast.Attribute) and isinstance(n.func.value, ast.Name) and (id(fn), n.func.value.id) in PARSER_CLASS:
+                # an accessor method the repository parser class defines: read its body with the call's constant arguments bound
+                acc = _accessor_accesses(ps, PARSER_CLASS[(id(fn), n.func.value.id)], n, qn)
+                if acc is None:
+                    continue
+                n_guarded, raw = acc
+                accesses += n_guarded
+                if n_guarded:
+                    ctx.ok(f'{qn}: `{short(n)}`: {n_guarded} section access(es) inside the accessor method are guarded by a presence test in the same expression')
+                if raw is None:
+                    continue
+                parser, key, what = n.func.value.id, raw[0], raw[1]      # the call is as good as the bare access it returns
             if parser is None or key is None:
                 continue
             accesses += 1
@@ -1667,12 +1778,120 @@ def _normal_form(ps: PathSym, mod: Module, qn: str, strict: bool = True,
     return ref, fn, notes
 
 
+def _eliminate_classifiers(ps: PathSym, ref: FuncRef, fn: T.Any, notes: T.List[str]) -> T.Any:
+    """Normal form for `state = Cls.classify(args)` + tests `state is Cls.MEMBER`: when the classifier is a repository function made
+    of local assignments, ifs and `return <Cls>.MEMBER` only, every test of the local against a member is replaced by the
+    disjunction of the classifier's path conditions that return that member (its locals and parameters substituted), so the
+    decision table is read over the original file-system atoms.  Anything else is left as it is (and ends Undecided later)."""
+    import copy
+    fn = copy.deepcopy(fn)
+    synth = _InlinedRef(ref.mod, ref.qn)
+    synth.__dict__['synth'] = fn
+    for st in list(walk_no_nested(fn)):
+        if not (isinstance(st, ast.Assign) and len(st.targets) == 1 and isinstance(st.targets[0], ast.Name) and isinstance(st.value, ast.Call)):
+            continue
+        name = st.targets[0].id
+        if len(ps.local_defs(fn).get(name, [])) != 1 or name in P.params_of(fn):
+            continue
+        clf = ps.resolve_callee(synth, st.value)
+        if clf is None and isinstance(st.value.func, ast.Attribute):       # Cls.classify(...)
+            rc = ps.resolve_class(ref.mod, attr_chain(st.value.func.value) or '')
+            if rc is not None:
+                clf = ps._method(rc[0], rc[1], st.value.func.attr)
+        if clf is None or '.' not in clf.qn:
+            continue
+        owner = clf.qn.rsplit('.', 1)[0]
+        cnode = clf.node
+        if not all(isinstance(x, (ast.Assign, ast.If, ast.Return)) or (isinstance(x, ast.Expr) and isinstance(x.value, ast.Constant))
+                   for x in walk_no_nested(cnode) if isinstance(x, ast.stmt) and x is not cnode):
+            continue
+        bind = _bind_call(clf, st.value, None)
+        if bind is None:
+            # Cls.classify(args): the receiver is the class itself
+            f = st.value.func
+            params = [a.arg for a in cnode.args.posonlyargs + cnode.args.args]
+            if 'classmethod' in decorator_names_of(cnode) and isinstance(f, ast.Attribute) and params and len(st.value.args) == len(params) - 1 and not st.value.keywords:
+                bind = dict(zip(params[1:], st.value.args))
+                bind[params[0]] = f.value
+            else:
+                continue
+        # every use of the local is a comparison with a member of the owner class
+        uses = [n for n in ast.walk(fn) if isinstance(n, ast.Name) and n.id == name and isinstance(n.ctx, ast.Load)]
+        cmps = [n for n in ast.walk(fn) if isinstance(n, ast.Compare) and isinstance(n.left, ast.Name) and n.left.id == name and len(n.ops) == 1
+                and isinstance(n.ops[0], (ast.Is, ast.IsNot, ast.Eq, ast.NotEq)) and (attr_chain(n.comparators[0]) or '').split('.')[-2:-1] == [owner.rsplit('.', 1)[-1]]]
+        if not uses or len(uses) != len(cmps):
+            continue
+        # substitution for the classifier's names: parameters -> arguments, single-definition locals -> their (substituted) values
+        subst: T.Dict[str, ast.AST] = dict(bind)
+        cdefs = ps.local_defs(cnode)
+        ok = True
+        for x in walk_no_nested(cnode):
+            if isinstance(x, ast.Assign):
+                if not (len(x.targets) == 1 and isinstance(x.targets[0], ast.Name) and len(cdefs.get(x.targets[0].id, [])) == 1 and x.targets[0].id not in bind):
+                    ok = False
+                    break
+                subst[x.targets[0].id] = _Rename({}, dict(subst)).visit(copy.deepcopy(x.value))
+        if not ok:
+            continue
+        by_member: T.Dict[str, T.List[ast.AST]] = {}
+        for p in enumerate_paths(cnode.body, pure={'exists', 'isdir', 'isfile', 'join', 'listdir'}):
+            if p.outcome != 'return' or p.value is None:
+                ok = False
+                break
+            base_lits: T.List[ast.AST] = []
+            for ev in p.events:
+                if ev.kind == 'cond':
+                    e = _Rename({}, subst).visit(copy.deepcopy(ev.node))
+                    base_lits.append(e if ev.val else ast.UnaryOp(op=ast.Not(), operand=e))
+            # `return A if c else B`: one alternative per arm
+            todo: T.List[T.Tuple[ast.AST, T.List[ast.AST]]] = [(p.value, base_lits)]
+            while todo:
+                v, lits = todo.pop()
+                if isinstance(v, ast.IfExp):
+                    t = _Rename({}, subst).visit(copy.deepcopy(v.test))
+                    todo.append((v.body, lits + [t]))
+                    todo.append((v.orelse, lits + [ast.UnaryOp(op=ast.Not(), operand=copy.deepcopy(t))]))
+                    continue
+                chain = attr_chain(v)
+                if chain is None or chain.split('.')[0] not in ('cls', owner.rsplit('.', 1)[-1]) or len(chain.split('.')) != 2:
+                    ok = False
+                    break
+                by_member.setdefault(chain.split('.')[1], []).append(lits[0] if len(lits) == 1 else ast.BoolOp(op=ast.And(), values=list(lits)) if lits else ast.Constant(value=True))
+            if not ok:
+                break
+        if not ok:
+            continue
+        repl: T.Dict[int, ast.AST] = {}
+        for c in cmps:
+            alts = by_member.get((attr_chain(c.comparators[0]) or '').split('.')[-1], [])
+            e2: ast.AST = ast.Constant(value=False) if not alts else alts[0] if len(alts) == 1 else ast.BoolOp(op=ast.Or(), values=[copy.deepcopy(a) for a in alts])
+            if isinstance(c.ops[0], (ast.IsNot, ast.NotEq)):
+                e2 = ast.UnaryOp(op=ast.Not(), operand=e2)
+            repl[id(c)] = e2
+
+        class _Sub(ast.NodeTransformer):
+            def visit_Compare(self, n: ast.Compare) -> ast.AST:
+                if id(n) in repl:
+                    return ast.copy_location(copy.deepcopy(repl[id(n)]), n)
+                return self.generic_visit(n)
+
+            def visit_Assign(self, n: ast.Assign) -> ast.AST:
+                return ast.copy_location(ast.Pass(), n) if n is st else n
+        fn = ast.fix_missing_locations(_Sub().visit(fn))
+        synth.__dict__['synth'] = fn
+        notes.append(f'`{name} = {short(st.value)}` eliminated: tests of `{name}` against {owner} members replaced by the path conditions of {clf.qn} '
+                     f'({", ".join(f"{m}: {len(v)} path(s)" for m, v in sorted(by_member.items()))})')
+    return fn
+
+
 def r3(ctx: RuleCtx) -> None:
     mod = ctx.repo.module(MSETUP)
     qn = 'MesonApp.validate_dirs'
     mod.func(qn)
     ps = PathSym(ctx.repo)
     ref, fn, inlined = _normal_form(ps, mod, qn)       # E1/E5 normal form: statement-level helpers spliced in
+    fn = _eliminate_classifiers(ps, ref, fn, inlined)  # `state = Cls.of(dir)` + `state is Cls.M`: read over the classifier's own atoms
+    ref.__dict__['synth'] = fn
     pure = {'exists', 'isdir', 'isfile', 'join', 'listdir', 'Path', 'is_dir', 'is_file', 'iterdir', 'any', 'list'}
     tab = tables.extract(fn, pure=pure, name=qn)
     if inlined:
@@ -1806,12 +2025,47 @@ def r4_generate(ctx: RuleCtx) -> None:
             return False
         if (call_method(e) or '') == 'DirectoryLock':
             return True
+        rc = ps.resolve_class(ref.mod, attr_chain(e.func) or '')
+        if rc is not None:              # a subclass of DirectoryLock that keeps its __enter__
+            chain = ps.mro(rc[0], rc[1])
+            names = [c.name for m, c in chain]
+            if 'DirectoryLock' in names:
+                own = [c.name for m, c in chain[:names.index('DirectoryLock')] if any(isinstance(st, ast.FunctionDef) and st.name == '__enter__' for st in c.body)]
+                return not own
+            return False
         if depth > 0:
             callee = ps.resolve_callee(ref, e)
             if callee is not None:
                 rets = [n for n in walk_no_nested(callee.node) if isinstance(n, ast.Return) and n.value is not None]
                 return len(rets) == 1 and is_lock(callee, rets[0].value, depth - 1)
         return False
+
+    def not_a_lock(ref: FuncRef, e: ast.AST) -> bool:
+        """Closed-world reading of a with-item: an instance of a repository class every base of which is read, that is not (a
+        subclass of) DirectoryLock and whose __init__/__enter__ enter no other context manager - it cannot be the lock."""
+        if isinstance(e, ast.Name):
+            d = ps.local_defs(ref.node).get(e.id, [])
+            return len(d) == 1 and d[0] is not None and not isinstance(d[0], ast.Name) and not_a_lock(ref, d[0])
+        if not isinstance(e, ast.Call):
+            return False
+        rc = ps.resolve_class(ref.mod, attr_chain(e.func) or '')
+        if rc is None:
+            return False
+        for m, c in ps.mro(rc[0], rc[1]):
+            if 'Lock' in c.name:
+                return False
+            for b in c.bases:
+                n = attr_chain(b.value if isinstance(b, ast.Subscript) else b)
+                if n is None or (n.split('.')[-1] not in ('object', 'Generic', 'Protocol') and ps.resolve_class(m, n) is None):
+                    return False        # a base class that is not read (contextlib.ExitStack, ...) may take the lock
+            for st in c.body:
+                if isinstance(st, (ast.FunctionDef, ast.AsyncFunctionDef)) and st.name in ('__init__', '__enter__', '__new__'):
+                    for x in walk_no_nested(st):
+                        if isinstance(x, (ast.With, ast.AsyncWith)):
+                            return False
+                        if isinstance(x, ast.Call) and ((call_method(x) or '') in ('enter_context', '__enter__', 'callback', 'DirectoryLock') or 'Lock' in (call_name(x) or '')):
+                            return False
+        return True
 
     def held(ref: FuncRef, node: ast.AST, depth: int) -> T.Optional[bool]:
         fn = ref.node
@@ -1824,7 +2078,7 @@ def r4_generate(ctx: RuleCtx) -> None:
                     at = cfg.node_containing(node)
                     if at and all(cfg.dominated_by_any(n, enters) for n in at):
                         return True
-                elif not all(isinstance(i.context_expr, ast.Call) and call_name(i.context_expr) in OPEN_FUNCS for i in w.items):
+                elif not all((isinstance(i.context_expr, ast.Call) and call_name(i.context_expr) in OPEN_FUNCS) or not_a_lock(ref, i.context_expr) for i in w.items):
                     odd = True
         if any(isinstance(c, ast.Call) and call_method(c) in ('enter_context', '__enter__', 'callback') for c in walk_no_nested(fn)):
             odd = True
